@@ -35,10 +35,10 @@
 EXTENDS SrcText, Json
 
 CONSTANTS MaxLen,      \* class strings of length <= MaxLen
-          Prefixes,    \* the class strings this TLC process grows (all extensions up to MaxLen) ...
-          Fixed,       \* ... and the ones it only judges.  TLC is single-threaded on this machine, so the check
-                       \* splits the enumeration over several processes: the shards partition the strings
-                       \* (Prefixes = {<<>>}, Fixed = {} is the whole enumeration in one process)
+          ShardLen,    \* TLC is single-threaded on this machine, so the check splits the enumeration over NShards
+          NShards,     \* processes: process ShardNo starts from the strings of length ShardLen whose index is
+          ShardNo,     \* ShardNo modulo NShards (process 0 also from all shorter strings) and grows them to MaxLen.
+                       \* ShardLen = 0, NShards = 1, ShardNo = 0 is the whole enumeration in one process.
           Variants,    \* subset of 1..3
           Export       \* TRUE: print one SRC line per (string, variant)
 
@@ -62,8 +62,13 @@ vars == << cs, v >>
 
 Bytes(s, w) == [i \in 1..Len(s) |-> Reps[s[i]][w]]
 
-Init == cs \in Prefixes \cup Fixed /\ v \in Variants
-Next == /\ Len(cs) < MaxLen /\ cs \notin Fixed
+Strs(n)  == [1..n -> 1..NClasses]
+Idx(s)   == FoldLeft(LAMBDA a, c : a * NClasses + (c - 1), 0, s)
+Starts   == {s \in Strs(ShardLen) : Idx(s) % NShards = ShardNo}
+            \cup (IF ShardNo = 0 THEN UNION {Strs(n) : n \in 0..(ShardLen - 1)} ELSE {})
+
+Init == cs \in Starts /\ v \in Variants
+Next == /\ Len(cs) < MaxLen /\ Len(cs) >= ShardLen
         /\ \E c \in 1..NClasses : cs' = Append(cs, c)
         /\ UNCHANGED v
 Spec == Init /\ [][Next]_vars
